@@ -227,7 +227,7 @@ def _keystore(rng, ctx, res):
         want = w.derive(d1, d2)
         keys = []
         for style in range(5):
-            text = w.keystore_text(rng, key_id=key_id, data1=d1, data2=d2, style=style, extra={"other.nested.key": "v"} if style == 1 else None)
+            text = w.keystore_text(rng, key_id=key_id, data1=d1, data2=d2, style=style, extra={"other.nested.key": "v"} if style == 1 else None, superseded_first=rng.random() < 0.35)
             o = call(KeyStore.from_text, text)
             cnt["keystore_checks"] = cnt.get("keystore_checks", 0) + 1
             if not o.ok:
@@ -278,7 +278,7 @@ def _cli(rng, ctx, res):
     ks = d / "encryption.info"
     out = d / rng.choice(["out.bin", "local.tgz", "o ut"])
     env.write_bytes(raw)
-    ks.write_text(w.keystore_text(rng, key_id=bytes(16), data1=d1, data2=d2, style=rng.randrange(5)))
+    ks.write_text(w.keystore_text(rng, key_id=bytes(16), data1=d1, data2=d2, style=rng.randrange(5), superseded_first=rng.random() < 0.35))
     before = {p.name: hashlib.sha256(p.read_bytes()).hexdigest() for p in d.iterdir()}
     ctx.audit.allow_write_paths = {str(out)}
     argv = sys.argv
